@@ -234,12 +234,12 @@ pub fn assemble(sched_seed: u64, seg: SegPattern, max_write: Option<usize>, gen:
     let mut replies = Vec::new();
     let mut k = 0usize;
     let steps = gen.into_iter().map(|g| conv(g, &mut k, &mut replies)).collect();
-    Script { sched_seed, seg, replies, steps, max_write, picture: None, broken_pipe: true, greeting: None, lazy_events: false, version: None, vectored: false, events_polled_last: false, error_kind: 0, real_ms_per_advance: 0, noise_connection: false }
+    Script { sched_seed, seg, replies, steps, max_write, picture: None, broken_pipe: true, greeting: None, lazy_events: false, version: None, vectored: false, events_polled_last: false, error_kind: 0, real_ms_per_advance: 0, noise_connection: false, greeting_tail: None, foreign_callers: false }
 }
 
 /// Properties of the peer and the transport that no property statement restricts: the version the
 /// server announces and whether the transport takes vectored writes.
-pub fn environment() -> impl Strategy<Value = (Option<String>, bool, Option<u16>, u8, bool)> {
+pub fn environment() -> impl Strategy<Value = (Option<String>, bool, Option<u16>, u8, (bool, bool))> {
     (
         prop_oneof![
             6 => Just(None),
@@ -251,13 +251,15 @@ pub fn environment() -> impl Strategy<Value = (Option<String>, bool, Option<u16>
         prop_oneof![5 => Just(None), 1 => Just(Some(0u16)), 1 => any::<u16>().prop_map(Some)],
         // the kind of io::Error injected faults carry
         prop_oneof![3 => Just(0u8), 4 => 1..8u8],
-        // an unrelated second connection on the same thread
-        prop::bool::weighted(0.15),
+        // an unrelated second connection on the same thread; the callers' futures polled by an executor
+        // on another OS thread
+        (prop::bool::weighted(0.15), prop::bool::weighted(0.12)),
     )
 }
 
 pub fn in_environment(s: impl Strategy<Value = Script>) -> impl Strategy<Value = Script> {
-    (s, environment()).prop_map(|(mut s, (version, vectored, drop_events, error_kind, noise))| {
+    (s, environment()).prop_map(|(mut s, (version, vectored, drop_events, error_kind, (noise, foreign)))| {
+        s.foreign_callers = foreign;
         s.version = version;
         s.vectored = vectored;
         s.error_kind = error_kind;
